@@ -53,7 +53,7 @@ Record sslcfg : Type := mkCfg {
   v_mode : Z;              (* SSL_set_verify mode *)
   v_cb : Z;                (* 0 = no callback, 1 = _tls_verify, 9 = something else *)
   v_hostflags : Z;         (* X509_VERIFY_PARAM host flags *)
-  v_host : bool;           (* reference identity pinned to conn->domain *)
+  v_host : bool;           (* reference identity pinned to conn->domain, and that is the configured JID's domain *)
   v_ca : bool              (* SSL_CTX_load_verify_locations was called with the user's CA file / path *)
 }.
 
@@ -105,8 +105,14 @@ Definition verify_setting (trust : bool) : Z * Z :=
             tls_verify_calls (0, 0).
 Definition hostflags_setting (trust : bool) : Z :=
   fold_left (fun acc c => match c with (g, f) => if guard_holds g trust then f else acc end) tls_hostflags_calls 0.
+(* conn->domain is the domain of the JID the user configured for as long as only _conn_connect (which copies
+   it from the JID / the caller's argument) and _conn_reset write it; a write anywhere else (e.g. from something the
+   peer sent) means the pinned name is no longer the user's *)
+Definition domain_is_configured : bool :=
+  forallb (fun c => (c =? 1) || (c =? 2)) tls_domain_written_in && existsb (fun c => c =? 1) tls_domain_written_in.
 Definition host_setting (trust : bool) : bool :=
-  fold_left (fun acc c => match c with (g, d) => if guard_holds g trust then (d =? 1) else acc end) tls_host_calls false.
+  fold_left (fun acc c => match c with (g, d) => if guard_holds g trust then (d =? 1) else acc end) tls_host_calls false
+  && domain_is_configured.
 
 Definition tls_new (sc : scenario) : option sslcfg :=
   let ca := s_cafile sc || s_capath sc in
